@@ -182,7 +182,7 @@ Qed.
 Lemma done_records_return_state_http (s s' : hstate) b :
   http_rstep s (RC (HRunRet b)) = Some s' -> h_run (rc s') = HPDone b (cur (rm s)) /\ rm s' = rm s.
 Proof.
-  unfold http_rstep. cbn [rstep http_step http_tok tok_apply].
+  unfold http_rstep, http_step. cbn [rstep http_stepx http_tok tok_apply].
   destruct (h_run (rc s)) eqn:E; try discriminate.
   destruct (Bool.eqb b nil) eqn:Eb; [|discriminate]. cbn. intros H. inversion H; subst. cbn. auto.
 Qed.
